@@ -120,7 +120,7 @@ fn main() {
             }
             let n = t.finish();
             println!(
-                "{}",
+                "\nSUMMARY {}",
                 json!({"events": n, "core": stats.core, "agree_only": stats.agree, "core_parse_fail": stats.core_parse_fail,
                        "opaque_parse_fail": stats.opaque_parse_fail, "disagree": stats.disagree, "ends": stats.ends, "ops": ops.len(),
                        "ops_list": ops.into_iter().collect::<Vec<_>>()})
